@@ -240,6 +240,18 @@ def drive(args):
         # ICC (binary TLV) elements whose content ends inside a tag or inside a length
         iccbits = [b_ for b_ in bc if b_ != '1' and bc[b_].get('field_processor') == 'ICC']
         for ib in iccbits[:1]:
+            # well-formed chip data full of bytes that are no characters of any 7-bit code page, next to text elements
+            for k_, body in enumerate((b'\x9f\x26\x08' + bytes(range(0xf8, 0x100)) + b'\x82\x02\x80\x00',
+                                       b'\x95\x05\x80\x80\x04\x80\x00' + b'\x9f\x10\x07\x06\x01\x0a\x03\xa4\xa0\x02',
+                                       b'\x84\x07\xa0\x00\x00\x00\x04\x10\x10')):
+                m = {'MTI': '1240', 'DE' + ib: body}
+                txt = [b_ for b_ in bc if b_ != '1' and bc[b_]['field_type'] == 'FIXED' and not bc[b_].get('field_processor')
+                       and not bc[b_].get('field_python_type')]
+                for b_ in txt[k_:k_ + 2]:
+                    m['DE' + b_] = 'T' * bc[b_]['field_length']
+                e, b = isoc.do_dumps(m, codec, bc, hexb)
+                if b is not None:
+                    add('valid message with binary chip data %s' % body.hex(), b, repr(m)[:200])
             for tail in (b'\x9f', b'\x5f', b'\x9f\x80', b'\x9f\x26', b'\x82', b'\x9f\x26\x05\x01', b'\xbf\x0c\x01\x00', b'\x1f', b'\xdf\x81'):
                 for head in (b'', b'\x82\x02\x01\x02'):
                     m = {'MTI': '1240', 'DE' + ib: head + tail}
